@@ -107,6 +107,17 @@ def _locals_of(fn):
     return names
 
 
+def _only_memo_decorators(fn):
+    """No decorator, or only memo decorators: for the structure of its callers a memoised helper is its body (whether
+    the memo itself is sound is decided by the rules on memoisation, which read the raw tree)."""
+    for d in fn.decorator_list:
+        e = d.func if isinstance(d, ast.Call) else d
+        name = e.attr if isinstance(e, ast.Attribute) else e.id if isinstance(e, ast.Name) else None
+        if name not in ("lru_cache", "cache", "cached"):
+            return False
+    return True
+
+
 class Inliner:
     def __init__(self, modname, tree):
         self.modname = modname
@@ -122,7 +133,7 @@ class Inliner:
             for st in body:
                 if isinstance(st, (ast.FunctionDef,)):
                     qn = prefix + st.name
-                    if _is_private(st.name) and qn not in self.base and not st.decorator_list and _simple_params(st) is not None:
+                    if _is_private(st.name) and qn not in self.base and _only_memo_decorators(st) and _simple_params(st) is not None:
                         if not any(isinstance(x, (ast.Yield, ast.YieldFrom, ast.Await)) for x in ast.walk(st)):
                             kind = "method" if cls is not None else ("nested" if parent is not None else "func")
                             self.candidates[(kind, cls, parent, st.name)] = (st, qn)
